@@ -42,6 +42,7 @@ class HFile:
         self.caps = dict(DEFAULT_CAPS)
         self.hashorder = False
         self.vecmodel = False
+        self.support = False
         self.harnesses = []
         self.text = open(path).read()
 
@@ -101,6 +102,7 @@ def load_catalogue():
                         hf.caps[k] = int(v)
                 hf.hashorder = kv.get("hashorder") == "sym"
                 hf.vecmodel = kv.get("vec") == "model"
+                hf.support = kv.get("support") == "1"
             elif s.startswith("//@h"):
                 pending = (_parse_kv(s[len("//@h"):]), i)
             elif pending is not None:
